@@ -5,7 +5,7 @@ without it, runs the given checks (default: the property's own) against the patc
 VERIF_REPO, and writes /verif/seeded/<seed-id>/{patch.diff,demo.py,meta.json}."""
 import json, os, shutil, subprocess, sys, time
 HERE = os.path.dirname(os.path.abspath(__file__))
-src, sid = sys.argv[1], sys.argv[2]
+src, sid = os.path.abspath(sys.argv[1]), sys.argv[2]
 meta = json.load(open(os.path.join(src, "meta.json")))
 prop = meta["property"]
 checks = sys.argv[3:] or [prop]
